@@ -181,7 +181,7 @@ PROPS.update({
 
 PARSE_RULE = ("random cobra trees (1-4 commands nested arbitrarily, aliases, hidden / deprecated commands, DisableFlagParsing, non-interspersed commands; 0-4 flags per command of kind bool / count / string / stringSlice / optional-argument, shorthands from a pool of six letters so that chains collide, persistent flags, hidden / deprecated / shorthand-deprecated flags, one or two mutually exclusive groups; one case in ten: flags of the carapace-pflag fork - `Nargs` 2 / 3 / -1 on slice flags, a custom `OptargDelimiter` (`:` `/` `%`) on long flags and, rarely, on a flag with a shorthand; 0-2 positional completions + any, 0-1 dash completions + any - every slot registered with a distinct marker value) "
               "x lines of 0-5 earlier words built by a grammar (`--f v`, `--f=v`, `-f v`, `-fv`, shorthand chains, `--`, empty words, lone `-`, positionals, sub-command names and aliases, unknown flags) and a current word (empty, `-`, `--`, partial names, chains, `--f=`, `-f=`, `--f<d>`, `--f<d>partial`; for `Nargs` flags runs of words with `-`, `--`, flags and empty words inside); every offered candidate is appended to the line and the line is executed by the program's own parser on a fresh tree; non-trivial = at least one candidate was offered; distinct = distinct input digest")
-PARSE_ASSUME = ["cobra's TraverseChildren is not generated; the fork's Nargs, custom OptargDelimiter and tolerated unknown flags are generated and modelled inside POSIX flag sets; its non-POSIX mode (a shorthand that is a word, ShorthandOnly / NameAsShorthand flags; one case in 16) is generated but has no model: there only the two oracles on the real code decide", "commands accept arbitrary positional arguments (cobra.ArbitraryArgs), so that acceptance depends on flags and dispatch only",
+PARSE_ASSUME = ["cobra's TraverseChildren is not generated; the fork's Nargs, custom OptargDelimiter, tolerated unknown flags and its non-POSIX mode (a shorthand that is a word, ShorthandOnly / NameAsShorthand flags; one case in 16) are generated and covered by the general models (ForkG / TraverseG / PflagG); the theorems about slots are about POSIX flag sets", "commands accept arbitrary positional arguments (cobra.ArbitraryArgs), so that acceptance depends on flags and dispatch only",
                 "the default `completion` command is disabled; the default help command and flag are cobra's"]
 PARSE_NOTE = ("Trusted: Lean kernel + propext/Classical.choice/Quot.sound; cobra v1.9.1 and carapace-pflag v1.0.0 are the oracle (the program's own parser is executed, not modelled, for the slot / acceptance checks; `pflagShort` is a specification of parseSingleShortArg used by the stage-1 theorems and checked against the real parser by op `lookuparg`); the harness (tree builder, marker registration) and generators. "
               "Modelled: internal/pflagfork LookupArg / Consumes, the offer rules of actionFlags and IsMutuallyExclusive. traverse itself is not modelled.")
@@ -193,9 +193,9 @@ PROPS.update({
                            "Models: `traverseSlot` (Model/Traverse.lean: the classification loop of traverse.go over the earlier words, the fix-up of the words handed to the parser, descent into sub-commands, the final case distinction) and `Pflag.parse` (Spec/Pflag.lean: the program's own parser - parseArgs / parseLongArg / parseShortArg of carapace-pflag, POSIX mode). "
                            "Proved: stage 1 - `C01_short_agrees` (for every POSIX flag set in which no flag uses `=` as its shorthand and every shorthand chain the parser does not reject, carapace's LookupArg + Consumes expects the next word to be the value of flag f exactly when the parser takes it as f's value; the hypothesis was forced by the proof and has a decided counterexample), `C01_long_attached`; "
                            "stages 2-3 for any command of any program as long as no earlier word names one of its sub-commands (hypotheses `Stay`, `NoChild`; a single-command program is the special case `Single.stay`) - `C01_positional_lands` (if the model completes positional argument k for a word not starting with `-`, then any word typed there that does not look like a flag is accepted by the parser, given that it accepts the line so far, and becomes exactly positional argument k) `C01_dash_lands` (likewise for argument k after `--`, for any word; hypothesis: no flag is waiting for its value) and, for interspersed commands, `C01_flag_value_lands` (if the model completes the value of flag f, any word of f's type typed there is accepted and is assigned to f as the last assignment of the line: `long_pending`, `short_pending`, the loop invariant `loop_pend` - a flag that waits for its value is the last word - and `parseArgs_append_inter`), resting on `parseArgs_snoc` (the parser's result on `ws ++ [w]` from its result on `ws`, by induction over the line) and `loop_single`. Not proved: non-interspersed commands for the flag-value slot, attached values (`--flag=<TAB>`), and lines that descend into a sub-command (the listed descent findings live there; the dispatch itself is cobra's `Find`, which is executed, not modelled). "
-                           "The fork's features (POSIX flag sets): general models `traverseSlotG` / `lookupArgG` / `consumesG` (Model/TraverseG.lean, ForkG.lean) and the parser specification `PflagG.parseG` with per-flag `OptargDelimiter` and `Nargs`; proved `C01_fork_long_attached` (`--name<d>value`, names free of delimiters: carapace resolves the word to that flag with prefix `--name<d>` and argument `value`, the parser assigns `value` to the same flag and takes no further word), `loopG_any_run` + `consumesG_any_stops` + `takeNargs_any` (`Nargs` < 0: carapace's loop and the parser's parseNargs give the flag the same run of words - true only since fix 8fe9b47), `consumesG_n` + `takeNargs_n` (`Nargs` = n), and the embedding theorems `lookupArgG_posix`, `consumesG_posix`, `parseG_posix` and **`traverseSlotG_posix`** (C01ForkTraverse.lean: on every tree without fork features - and without a flag whose shorthand is `=` - the general traverse model picks exactly the slot of the POSIX model, by a simulation between the two classification loops; so every slot theorem above is a theorem about the model that is compared with the code on every case); the driver still evaluates both models and both specifications on every case without fork features and reports a disagreement as a mismatch. "
+                           "The fork's features: general models `traverseSlotG` / `lookupArgG` / `consumesG` (Model/TraverseG.lean, ForkG.lean) and the parser specification `PflagG.parseG` with per-flag `OptargDelimiter`, `Nargs`, tolerated unknown flags and the non-POSIX mode (`isPosixG`, `lookupNonPosixG`, `parseNonPosixShortG`: the whole word after `-` is one shorthand, ShorthandOnly / NameAsShorthand flags) - compared with the real code on every generated case, no theorem about the non-POSIX branch; proved `C01_fork_long_attached` (`--name<d>value`, names free of delimiters: carapace resolves the word to that flag with prefix `--name<d>` and argument `value`, the parser assigns `value` to the same flag and takes no further word), `loopG_any_run` + `consumesG_any_stops` + `takeNargs_any` (`Nargs` < 0: carapace's loop and the parser's parseNargs give the flag the same run of words - true only since fix 8fe9b47), `consumesG_n` + `takeNargs_n` (`Nargs` = n), and the embedding theorems `lookupArgG_posix`, `consumesG_posix`, `parseG_posix` and **`traverseSlotG_posix`** (C01ForkTraverse.lean: on every tree without fork features - and without a flag whose shorthand is `=` - the general traverse model picks exactly the slot of the POSIX model, by a simulation between the two classification loops; so every slot theorem above is a theorem about the model that is compared with the code on every case); the driver still evaluates both models and both specifications on every case without fork features and reports a disagreement as a mismatch. "
                            "Ties: `Pflag.parse` = the real parser on every generated line (op `pflagparse`); `traverseSlot` = the slot the real traverse serves, observed through per-slot marker values, on every generated line incl. sub-command descent, parse errors, DisableFlagParsing, non-interspersed commands (op `parse`); LookupArg / Consumes model = internal/pflagfork (op `lookuparg`). "
-                           "Decided on the real code, both directions: every offered candidate carries a marker of the slot that produced it; it is appended to the line and the line is executed by the program's own cobra/pflag on a fresh tree: it must land in that slot (command, positional index, index after the dash, flag); and a probe word typed at the cursor is run through the program the same way: the slot it lands in must be the slot whose registered completion is served (this direction needs no model and also covers non-POSIX flag sets)."),
+                           "Decided on the real code, both directions: every offered candidate carries a marker of the slot that produced it; it is appended to the line and the line is executed by the program's own cobra/pflag on a fresh tree: it must land in that slot (command, positional index, index after the dash, flag); and a probe word typed at the cursor is run through the program the same way: the slot it lands in must be the slot whose registered completion is served (this direction needs no model)."),
             "level_note": PARSE_NOTE},
     "C07": {"modules": ["Carapace.Props.C07", "Carapace.Props.C07Parser"], "ops": [("parse", {"quick": 6000, "thorough": 300000})],
             "rule": PARSE_RULE, "assumptions": PARSE_ASSUME, "claimed": True, "engine": "parse",
